@@ -14,6 +14,8 @@ AllAccts == [v \in Vals |-> Chains]
 \* stake vectors: equal, dominant, mixed, ascending (index order matters for ties)
 Vecs3Q == {<<1, 1, 1>>, <<7, 2, 1>>, <<1, 2, 3>>, <<2, 2, 1>>}
 Vecs4Q == {<<1, 1, 1, 1>>, <<7, 1, 1, 1>>, <<1, 2, 3, 7>>, <<3, 3, 2, 1>>}
+\* keep-alive part: plus shares of validator 1 just around the 25% protection (25.49% = 26 of 102, 26.47% = 27 of 102, 24.5%)
+Vecs4K == Vecs4Q \cup {<<26, 25, 25, 26>>, <<27, 25, 25, 25>>, <<25, 26, 25, 26>>}
 Vecs2 == {<<1, 1>>, <<3, 1>>}
 VecsAll == {stk \in [Vals -> StakeSet] : \A a, b \in Vals : a < b => stk[a] >= stk[b] \/ a = 1}  \* validators 2..N sorted, validator 1 free
 InitSnap == \E stk \in StakeVecs : InitWith(stk, AllAccts, {}, InitStatus(stk))
